@@ -24,6 +24,10 @@ if st:
     print('repo not clean:\n' + st); sys.exit(2)
 
 results = []
+evidence_backup = '/var/tmp/evidence_backup_mut'
+sh(f'rm -rf {evidence_backup} && cp -r /verif/evidence {evidence_backup}')
+import atexit
+atexit.register(lambda: sh(f'rm -rf /verif/evidence && mv {evidence_backup} /verif/evidence'))
 for m in MUTANTS:
     if args.k and args.k not in m['name']:
         continue
